@@ -238,6 +238,15 @@ theorem inv_shutdown {s s' : St} (hi : Inv s) (hs : step s .shutdown = some s') 
   all_goals (obtain ⟨d1,d2,p1,cp,f1,f2,f3,f4,f5,nl,wc,wz,sh,es,sd⟩ := hi; constructor <;> (try simp only [upd]))
   all_goals grind [PState.pending, Writer.pending, expand_append, proj_append, expand_single, equal_eq, List.replicate_succ', proj_single]
 
+theorem inv_addTracer {s s' : St} {pid pkg live} (hi : Inv s) (hs : step s (.addTracer pid pkg live) = some s') : Inv s' := by
+  inv_open hs
+  all_goals (obtain ⟨d1,d2,p1,cp,f1,f2,f3,f4,f5,nl,wc,wz,sh,es,sd⟩ := hi; constructor <;> (try simp only [upd]))
+  all_goals grind [PState.pending, Writer.pending, expand_append, proj_append, expand_single, equal_eq, List.replicate_succ', proj_single]
+
+theorem inv_collect {s s' : St} {pid e pkg} (hi : Inv s) (hs : step s (.collect pid e pkg) = some s') : Inv s' := by
+  inv_open hs
+  all_goals (obtain ⟨d1,d2,p1,cp,f1,f2,f3,f4,f5,nl,wc,wz,sh,es,sd⟩ := hi; constructor <;> (try simp only [upd]))
+  all_goals grind [PState.pending, Writer.pending, expand_append, proj_append, expand_single, equal_eq, List.replicate_succ', proj_single]
 
 theorem inv_step {s s' : St} {a : Act} (hi : Inv s) (hs : step s a = some s') : Inv s' := by
   cases a with
@@ -265,6 +274,8 @@ theorem inv_step {s s' : St} {a : Act} (hi : Inv s) (hs : step s a = some s') : 
     | timer => exact inv_w_timer hi hs
     | fdeq l => exact inv_w_fdeq hi hs
     | ftimeout => exact inv_w_ftimeout hi hs
+  | addTracer pid pkg live => exact inv_addTracer hi hs
+  | collect pid e pkg => exact inv_collect hi hs
   | wforce pid => exact inv_wforce hi hs
   | trigger => exact inv_trigger hi hs
   | setLevel g => exact inv_setLevel hi hs
@@ -303,6 +314,10 @@ theorem trinv_step {s s' : St} {a : Act} (hi : TrInv s) (hs : step s a = some s'
     apply trinv_of_frame hi <;>
       (cases e <;> simp only [step, St.accept, St.push] at hs <;> (repeat' split at hs) <;> (try cases hs) <;> rfl)
   | wforce pid =>
+    apply trinv_of_frame hi <;> (simp only [step] at hs; (repeat' split at hs) <;> (try cases hs) <;> rfl)
+  | addTracer pid pkg live =>
+    apply trinv_of_frame hi <;> (simp only [step] at hs; (repeat' split at hs) <;> (try cases hs) <;> rfl)
+  | collect pid e pkg =>
     apply trinv_of_frame hi <;> (simp only [step] at hs; (repeat' split at hs) <;> (try cases hs) <;> rfl)
   | trigger =>
     apply trinv_of_frame hi <;> (simp only [step] at hs; (repeat' split at hs) <;> (try cases hs) <;> rfl)
@@ -674,6 +689,17 @@ theorem conformsB_iff (es : List Item) (got : List Got) : conformsB es got = tru
       subst hx
       exact ⟨rfl, List.suffix_refl _⟩) ⟨_, List.mem_singleton.mpr rfl, h⟩
 
+theorem diagnose_ne_pass (gid : Nat) (es : List Item) (got : List Got) (v : Verdict) :
+    diagnose gid es got v ≠ .pass := by
+  unfold diagnose
+  cases v with
+  | pass => simp
+  | fail cls g i =>
+    simp only
+    split
+    · split <;> simp
+    · simp
+
 theorem checkProd_sound (gid : Nat) (es : List Item) (got : List Got) (h : checkProd gid es got = .pass) :
     Conforms es got := by
   unfold checkProd at h
@@ -681,7 +707,7 @@ theorem checkProd_sound (gid : Nat) (es : List Item) (got : List Got) (h : check
   · rename_i hg; exact greedyProd_sound gid es got hg
   · split at h
     · rename_i hb; exact (conformsB_iff es got).mp hb
-    · rename_i hv _; exact absurd h (by intro h'; exact hv h')
+    · exact absurd h (diagnose_ne_pass gid es got _)
 
 theorem checkProd_complete (gid : Nat) {es : List Item} {got : List Got} (h : Conforms es got) :
     checkProd gid es got = .pass := by
@@ -774,18 +800,42 @@ theorem checkRun_sound (np : Nat) (exps : Nat → List Item) (outs : List OutW) 
     · cases h
     · rename_i hnone2
       split at h
-      · rename_i htr
-        refine ⟨?_, ?_, fun g hg => checkTracers_sound outs exps np 0 htr g (by omega) (by omega),
-          fun g hg => checkProds_sound outs exps np 0 h g (by omega) (by omega)⟩
-        · intro o ho
-          have := List.find?_eq_none.mp hnone o ho
-          simpa using this
-        · intro o ho hs
-          have := List.find?_eq_none.mp hnone2 o ho
-          simp [OutW.mergedTracer, hs] at this
-          exact this
+      · split at h
+        · rename_i htr
+          refine ⟨?_, ?_, fun g hg => checkTracers_sound outs exps np 0 htr g (by omega) (by omega),
+            fun g hg => checkProds_sound outs exps np 0 h g (by omega) (by omega)⟩
+          · intro o ho
+            have := List.find?_eq_none.mp hnone o ho
+            simpa using this
+          · intro o ho hs
+            have := List.find?_eq_none.mp hnone2 o ho
+            simp [OutW.mergedTracer, hs] at this
+            exact this
+        · rename_i hv
+          exact absurd h hv
       · rename_i hv
         exact absurd h hv
+
+/-- The line-by-line pre-check never rejects what the specification allows: in a conforming output every line
+    lies in the block of an item that matches it and may be emitted at least once. -/
+theorem conforms_line_allowed {es : List Item} {got : List Got} (h : Conforms es got) :
+    ∀ g ∈ got, neverAllowed es g = false := by
+  have key : ∀ g ∈ got, ∃ e ∈ es, e.matches g = true ∧ 0 < e.hi := by
+    induction h with
+    | nil => intro g hg; cases hg
+    | @cons e es blk rest hb hlo hhi _ ih =>
+      intro g hg
+      rcases List.mem_append.mp hg with hg | hg
+      · refine ⟨e, List.mem_cons_self, (matches_iff e g).mpr (hb g hg), ?_⟩
+        have : 0 < blk.length := List.length_pos_of_mem hg
+        omega
+      · obtain ⟨e', he', hm, hh⟩ := ih g hg
+        exact ⟨e', List.mem_cons_of_mem _ he', hm, hh⟩
+  intro g hg
+  obtain ⟨e, he, hm, hh⟩ := key g hg
+  have : (es.any fun e => e.matches g && decide (0 < e.hi)) = true :=
+    List.any_eq_true.mpr ⟨e, he, by simp [hm, hh]⟩
+  simp [neverAllowed, this]
 
 /-! ### Liveness: the writer alone can drain the buffer -/
 
@@ -916,5 +966,228 @@ theorem canDrain_of_reachable {s : St} (h : Reachable s) (hp : s.paced = false) 
   | fin => exact canDrain_fin _ _ rfl hw (hi.wc (by rw [hw]; simp))
   | done => exact absurd hw hd
 
+
+/-! ### Level decisions taken outside `log()`: `fastcheck`, `AddTracer`, the life of a context tracer
+
+`fastcheck_iff` and `addTracer_iff` are proved by unfolding the functions regenerated from log/input.go and
+log/trace.go (`PB.Gen.Log.fastcheck`, `PB.Gen.Log.addTracer`): a dropped branch, a changed comparison or a
+wrong argument of `fastcheck` in the source changes the generated function and breaks these proofs. -/
+section Tracers
+open PB.Gen.Log (traceLevel)
+
+theorem fastcheck_iff (c : Levels) (lvl : Nat) :
+    fastcheck c lvl = true ↔ (c.active = true ∨ c.glob ≤ lvl) := by
+  unfold fastcheck PB.Gen.Log.fastcheck
+  cases c.active <;> (try simp) <;> (try omega)
+
+theorem enabled_mono {c : Levels} {pkg : Option Nat} {a b : Nat} (h : enabled c pkg a = true) (hab : a ≤ b) :
+    enabled c pkg b = true := by
+  unfold enabled at *
+  cases hact : c.active <;> simp [hact] at h ⊢
+  · omega
+  · cases pkg with
+    | none => simp at h
+    | some p =>
+      simp at h ⊢
+      cases hl : lookupPkg c.pkgs p <;> simp [hl] at h ⊢ <;> omega
+
+theorem isSeverity_ge {lvl : Nat} (h : isSeverity lvl = true) : traceLevel ≤ lvl := by
+  unfold isSeverity PB.Gen.Log.severities at h
+  simp at h
+  unfold traceLevel
+  omega
+
+/-- (The proofs about the regenerated `addTracer` are scripted so that they go through for every source shape
+    that takes the same decisions — e.g. another argument of the leading `fastcheck`, a dropped dead branch —:
+    unfold, split on the Boolean inputs, `simp`, linear arithmetic over the severity constants.) -/
+theorem addTracer_iff (c : Levels) (pkg : Option Nat) :
+    addTracer c false true pkg false = true ↔ enabled c pkg traceLevel = true := by
+  have h1 : PB.Gen.Log.traceLevel = 1 := rfl
+  have h2 : PB.Gen.Log.debugLevel = 2 := rfl
+  have h3 : PB.Gen.Log.infoLevel = 3 := rfl
+  have h4 : PB.Gen.Log.warningLevel = 4 := rfl
+  have h5 : PB.Gen.Log.errorLevel = 5 := rfl
+  have h6 : PB.Gen.Log.criticalLevel = 6 := rfl
+  unfold addTracer PB.Gen.Log.addTracer PB.Gen.Log.fastcheck enabled
+  cases pkg with
+  | none => cases c.active <;> (try simp) <;> (try omega)
+  | some p =>
+    cases c.active <;> (try simp) <;> (try cases lookupPkg c.pkgs p) <;> (try simp) <;> (try omega)
+
+theorem addTracer_refuses (c : Levels) (ok : Bool) (pkg : Option Nat) (ex : Bool) :
+    addTracer c true ok pkg ex = false ∧ addTracer c false ok pkg true = false ∧
+      (c.active = true → addTracer c false false pkg ex = false) ∧
+      (c.active = true → addTracer c false ok none ex = false) := by
+  unfold addTracer PB.Gen.Log.addTracer PB.Gen.Log.fastcheck
+  refine ⟨by simp, ?_, ?_, ?_⟩
+  · cases c.active <;> cases ok <;> cases pkg.isNone <;> cases (pkg.bind (lookupPkg c.pkgs)) <;> simp
+  · intro h; simp [h]
+  · intro h; cases ok <;> simp [h]
+
+/-- Trace was in force for the origin `AddTracer` was called from when it handed the tracer out, and a tracer
+    collects only lines of the six severities. -/
+def Tracer.ok (t : Tracer) : Prop :=
+  enabled t.lv t.pkg traceLevel = true ∧ ∀ x ∈ t.logs, isSeverity x.e.lvl = true
+
+structure TcInv (s : St) : Prop where
+  c1 : ∀ p t, s.tr p = some t → t.ok
+  c2 : ∀ p, ∀ sb ∈ s.subs p, sb.tr.ok ∧ submitLine (sb.tr.logs.map (·.e)) = some sb.line
+  c3 : ∀ p, (s.logged p).filter (·.trace.isSome) = (s.subs p).map (·.line)
+  c4 : ∀ p l pkg, s.prods p = .inLog l pkg → l.trace = none
+
+theorem tcinv_init (cap paced lv) : TcInv (St.init cap paced lv) := by
+  constructor <;> simp [St.init]
+
+/-- Actions that touch neither tracers nor submissions nor the accepted lines, and put no goroutine before the filter. -/
+theorem tcinv_of_frame {s s' : St} (hi : TcInv s) (ht : s'.tr = s.tr) (hsb : s'.subs = s.subs)
+    (hl : s'.logged = s.logged) (hp : ∀ p l pkg, s'.prods p = .inLog l pkg → s.prods p = .inLog l pkg) : TcInv s' := by
+  obtain ⟨c1, c2, c3, c4⟩ := hi
+  constructor
+  · rw [ht]; exact c1
+  · rw [hsb]; exact c2
+  · rw [hl, hsb]; exact c3
+  · intro p l pkg h; exact c4 p l pkg (hp p l pkg h)
+
+theorem tcinv_step {s s' : St} {a : Act} (hi : TcInv s) (hs : step s a = some s') : TcInv s' := by
+  cases a with
+  | w e =>
+    apply tcinv_of_frame hi <;>
+      (cases e <;> simp only [step] at hs <;> (repeat' split at hs) <;> (try cases hs) <;> (try rfl) <;> (intro p l pkg h; exact h))
+  | wforce pid =>
+    apply tcinv_of_frame hi <;> (simp only [step] at hs; (repeat' split at hs) <;> (try cases hs) <;> (try rfl) <;> (intro p l pkg h; exact h))
+  | trigger =>
+    apply tcinv_of_frame hi <;> (simp only [step] at hs; (repeat' split at hs) <;> (try cases hs) <;> (try rfl) <;> (intro p l pkg h; exact h))
+  | setLevel g => simp only [step] at hs; cases hs; exact tcinv_of_frame hi rfl rfl rfl (fun _ _ _ h => h)
+  | setPkgs m => simp only [step] at hs; cases hs; exact tcinv_of_frame hi rfl rfl rfl (fun _ _ _ h => h)
+  | unsetPkgs => simp only [step] at hs; cases hs; exact tcinv_of_frame hi rfl rfl rfl (fun _ _ _ h => h)
+  | shutdown =>
+    apply tcinv_of_frame hi <;> (simp only [step] at hs; (repeat' split at hs) <;> (try cases hs) <;> (try rfl) <;> (intro p l pkg h; exact h))
+  | addTracer pid pkg live =>
+    obtain ⟨c1, c2, c3, c4⟩ := hi
+    simp only [step] at hs
+    (repeat' split at hs) <;> (try cases hs)
+    · rename_i hidle hdec hlive
+      subst hlive
+      constructor
+      · intro p t ht
+        simp only [upd] at ht
+        split at ht
+        · cases ht
+          refine ⟨?_, by simp⟩
+          cases hex : (s.tr pid).isSome with
+          | false => rw [hex] at hdec; exact (addTracer_iff s.lv pkg).mp hdec.symm
+          | true => rw [hex, (addTracer_refuses s.lv true pkg true).2.1] at hdec; cases hdec
+        · exact c1 p t ht
+      · exact c2
+      · exact c3
+      · exact c4
+    · exact ⟨c1, c2, c3, c4⟩
+  | collect pid e pkg =>
+    obtain ⟨c1, c2, c3, c4⟩ := hi
+    simp only [step] at hs
+    (repeat' split at hs) <;> (try cases hs)
+    rename_i t hidle htr hsev
+    constructor
+    · intro p t' ht
+      simp only [upd] at ht
+      split at ht
+      · cases ht
+        obtain ⟨a, b⟩ := c1 pid t htr
+        refine ⟨a, ?_⟩
+        intro x hx
+        simp only [List.mem_append, List.mem_singleton] at hx
+        rcases hx with hx | rfl
+        · exact b x hx
+        · exact hsev
+      · exact c1 p t' ht
+    · exact c2
+    · exact c3
+    · exact c4
+  | p pid e =>
+    obtain ⟨c1, c2, c3, c4⟩ := hi
+    cases e with
+    | call l pkg pass =>
+      simp only [step] at hs
+      split at hs
+      · split at hs
+        · have hg : l.trace = none := (‹l.trace = none ∧ pass = fastcheck s.lv l.lvl›).1
+          cases hs
+          refine ⟨c1, c2, c3, ?_⟩
+          intro p l' pkg' h
+          simp only [upd] at h
+          by_cases hp : p = pid
+          · simp only [hp, if_true] at h
+            by_cases hpass : pass = true
+            · simp [hpass] at h; obtain ⟨rfl, _⟩ := h; exact hg
+            · simp [hpass] at h
+          · simp only [hp, if_false] at h; exact c4 p l' pkg' h
+        · cases hs
+      · cases hs
+    | filter pass =>
+      simp only [step, St.accept] at hs
+      (repeat' split at hs) <;> (try cases hs)
+      · rename_i l pkg hin hen hpass
+        have hpl := c4 pid l pkg hin
+        refine ⟨c1, c2, ?_, ?_⟩
+        · intro p
+          simp only [upd]
+          split
+          · rename_i hp; subst hp
+            simp [List.filter_append, hpl, c3]
+          · exact c3 p
+        · intro p l' pkg' h
+          simp only [upd] at h
+          split at h
+          · cases h
+          · exact c4 p l' pkg' h
+      · refine ⟨c1, c2, c3, ?_⟩
+        intro p l' pkg' h
+        simp only [upd] at h
+        split at h
+        · cases h
+        · exact c4 p l' pkg' h
+    | submit l =>
+      simp only [step, St.accept] at hs
+      (repeat' split at hs) <;> (try cases hs)
+      rename_i t htr hsub
+      have hsome : l.trace.isSome = true := ‹l.trace.isSome = true›
+      constructor
+      · intro p t' ht
+        simp only [upd] at ht
+        split at ht
+        · cases ht
+        · exact c1 p t' ht
+      · intro p sb hsb
+        simp only [upd] at hsb
+        split at hsb
+        · rename_i hp; subst hp
+          simp only [List.mem_append, List.mem_singleton] at hsb
+          rcases hsb with hsb | rfl
+          · exact c2 p sb hsb
+          · exact ⟨c1 p t htr, hsub⟩
+        · exact c2 p sb hsb
+      · intro p
+        simp only [upd]
+        split
+        · rename_i hp; subst hp
+          simp [List.filter_append, hsome, c3]
+        · exact c3 p
+      · intro p l' pkg' h
+        simp only [upd] at h
+        split at h
+        · cases h
+        · exact c4 p l' pkg' h
+    | forced => simp [step] at hs
+    | _ =>
+      apply tcinv_of_frame ⟨c1, c2, c3, c4⟩ <;>
+        (simp only [step, St.push] at hs <;> (repeat' split at hs) <;> (try cases hs) <;> (try rfl) <;>
+          (intro p l pkg h; simp only [upd] at h; split at h <;> (try split at h) <;> first | cases h | exact h))
+
+theorem tcinv_reachable {s : St} (h : Reachable s) : TcInv s := by
+  induction h with
+  | init cap paced lv => exact tcinv_init cap paced lv
+  | step _ hs ih => exact tcinv_step ih hs
+
+end Tracers
 
 end PB.Log
